@@ -764,7 +764,7 @@ fn c14_pubrel_size_gate() {
 // ---------------------------------------------------------------------------------------------
 // C01-O4: the first byte of a replayed packet must still be a legal fixed header
 // ---------------------------------------------------------------------------------------------
-// @harness props=C01,C05 tier=quick layer=L2
+// @harness props=C01 tier=quick layer=L2
 // @harness funcs="Outbound::arm_replay, mark_retained_dup"
 // @harness sym="type/flags of the retained packet among PUBLISH QoS 1/2 (+/- retain), SUBSCRIBE, UNSUBSCRIBE" bounds="one retained packet"
 // @harness assumes="KNOWN FINDING F7 tagged"
@@ -846,4 +846,37 @@ fn c12_connect_fits_behind_retained() {
         }
     }
     kani::cover!(r.is_ok() && l > 0);
+}
+
+// @harness props=C06 tier=quick layer=L2
+// @harness funcs="Outbound::unresolved_publishes"
+// @harness sym="first byte of each of 3 retained packets (all values), number of exchanges awaiting PUBCOMP (0..2)" bounds="3 retained + <= 2 release entries"
+#[kani::proof]
+#[kani::unwind(6)]
+fn c06_unresolved_publishes_counts() {
+    let mut tx: [u8; 16] = kani::any();
+    let firsts = [tx[0], tx[4], tx[9]];
+    let mut ob = Outbound::new(&mut tx);
+    ob.retain_packet(3, 0, 4).unwrap();
+    ob.retain_packet(4, 4, 5).unwrap();
+    ob.retain_packet(5, 9, 3).unwrap();
+    let nrel: usize = kani::any();
+    kani::assume(nrel <= 2);
+    if nrel >= 1 {
+        ob.queue_release(9, ReasonCode::Success).unwrap();
+    }
+    if nrel == 2 {
+        ob.queue_release(10, ReasonCode::Success).unwrap();
+    }
+    let mut want = nrel;
+    let mut i = 0;
+    while i < 3 {
+        if firsts[i] >> 4 == 3 {
+            want += 1;
+        }
+        i += 1;
+    }
+    assert!(ob.unresolved_publishes() == want, "C06: publishes counted against the Receive Maximum = retained PUBLISH packets + exchanges awaiting PUBCOMP (SUBSCRIBE/UNSUBSCRIBE do not count)");
+    kani::cover!(want == 5);
+    kani::cover!(want == 0);
 }
